@@ -8,8 +8,10 @@ for k in keys:
         print(e.verify_function(kk))
 t=time.time()
 res = discharge(e, e.obligations, timeout_ms=int(__import__('os').environ.get('TMO','5000')))
+cnt={}
 for ob in e.obligations:
-    r = res[ob.name][0]
+    i=cnt.get(ob.name,0); cnt[ob.name]=i+1
+    r = res[ob.name][i]
     ok = (r['verdict']=='unsat') != ob.expect_fail
     print('OK  ' if ok else 'FAIL', ob.name, r['verdict'], round(r['secs'],2), r['solver'], '' if ok else ob.text)
 print('time', round(time.time()-t,1))
